@@ -79,8 +79,8 @@ META = {
         "fetch_more_tokens uses and get that character as style; when the text after 'key:' continues at column 0, exactly the "
         "scalars that PyYAML can never take for a simple key (fetch_block_scalar removes the possible simple key; fetch_flow_scalar "
         "and fetch_plain save one, which is required at the mapping's column) are scanned as the value - a '|'/'>' header reaches "
-        "_scan_block_scalar there, a quoted or plain scalar does not (three-valued evaluation of the dispatch tests under 'column "
-        "0, character c'); scanners left/right of ':' get is_key True/False; every "
+        "_scan_block_scalar there whatever character follows it, a quoted or plain scalar does not (three-valued evaluation of the "
+        "dispatch tests under 'column 0, first character c, next character n'); scanners left/right of ':' get is_key True/False; every "
         "pending key reaches a yield before it is overwritten or the generator ends and none is yielded twice; the protocol "
         "invariant 'a value token arrives only while a key is pending' is proved from both sides (_tokenize: no CFG path from the "
         "start or from a value yield to a value yield avoids a key yield, is_key decides the token class; _to_tokens: every key "
@@ -3345,7 +3345,8 @@ def _eval3(e, col0: bool, ch: str, is_ch, is_column, consts):
             if isinstance(c, int):
                 return {ast.Eq: 0 == c, ast.NotEq: 0 != c, ast.Lt: 0 < c, ast.LtE: 0 <= c, ast.Gt: 0 > c, ast.GtE: 0 >= c}.get(type(op))
             return None
-        if is_ch(left):
+        if is_ch(left) is not None:
+            ch = is_ch(left)
             try:
                 c = consts(right)
             except Unsupported:
@@ -3362,7 +3363,7 @@ def _eval3(e, col0: bool, ch: str, is_ch, is_column, consts):
         return False  # `if stream.column:` at column 0
     if isinstance(e, ast.Constant):
         return bool(e.value)
-    if isinstance(e, ast.Name) and not is_ch(e):
+    if isinstance(e, ast.Name) and is_ch(e) is None:
         d = getattr(is_column, "resolve", lambda _n: None)(e)  # a local holding a test made at this cursor position
         if d is not None:
             return _eval3(d, col0, ch, is_ch, is_column, consts)
@@ -3465,9 +3466,12 @@ def r6_state_machine(corpus: Corpus, rep: Report, tier: str):
     kind_of = {"_scan_block_scalar": "block", "_scan_flow_scalar": "flow", "_scan_plain_scalar": "plain"}
     probes = {"block": sorted(oracle["block"]), "flow": sorted(oracle["flow"]), "plain": ["a", "-", "0"]}
 
+    env: dict = {}
+
     def is_ch(x):
+        """the probe character of the look-ahead ``x`` reads (offset 0 = the first character of the would-be value)"""
         t_ = e9.peek_target(x, tok, st_) if isinstance(x, (ast.Name, ast.Call)) else None
-        return t_ is not None and t_[0] == "0"
+        return env.get(t_[0]) if t_ is not None else None
 
     def is_column(x):
         return isinstance(x, ast.Attribute) and x.attr == "column" and e9.is_stream(x.value, tok)
@@ -3493,22 +3497,41 @@ def r6_state_machine(corpus: Corpus, rep: Report, tier: str):
         for d_ in cfg.dom().get(st_, ()):
             if isinstance(d_, tuple) and d_[0] in ("T", "F") and isinstance(d_[1], (ast.If, ast.While)) and not e9.intervening(cfg, d_[1], st_, e9.killers(tok)):
                 guards += split_facts(d_[1].test, d_[0] == "T")
+        # PyYAML decides on the first character alone, so the obligation holds for every following character: probe the
+        # characters the tests on the next offset mention, plus some they do not
+        nexts = {" ", "\n", END, "-", "+", "2", "x", ":"}
+        for t_, _ in guards:
+            for cmp_ in ast.walk(t_):
+                if isinstance(cmp_, ast.Compare) and len(cmp_.ops) == 1:
+                    tg = e9.peek_target(cmp_.left, tok, st_) if isinstance(cmp_.left, (ast.Name, ast.Call)) else None
+                    if tg is not None and tg[0] != "0":
+                        try:
+                            nexts |= set(as_charset(m.eval_const(cmp_.comparators[0])) or ())
+                        except Unsupported:
+                            pass
         verdicts = {}
         for c_ in probes[kd]:
-            vals = [(_eval3(t_, True, c_, is_ch, is_column, m.eval_const), pol) for t_, pol in guards]
-            if any(v is not None and v != pol for v, pol in vals):
-                verdicts[c_] = "unreachable"
-            elif all(v is not None for v, _ in vals):
-                verdicts[c_] = "reached"
-            else:
+            per_next = {}
+            for n_ in sorted(nexts):
+                env.clear()
+                env.update({"0": c_, "1": n_})
+                vals = [(_eval3(t_, True, c_, is_ch, is_column, m.eval_const), pol) for t_, pol in guards]
+                per_next[n_] = "unreachable" if any(v is not None and v != pol for v, pol in vals) else "reached" if all(v is not None for v, _ in vals) else "unknown"
+            kinds_ = set(per_next.values())
+            if kinds_ == {"reached"} or kinds_ == {"unreachable"}:
+                verdicts[c_] = kinds_.pop()
+            elif "unknown" in kinds_:
                 verdicts[c_] = "unknown"
+            else:  # depends on the following character
+                odd = sorted(n_ for n_, v in per_next.items() if v == ("unreachable" if not capable[kd] else "reached"))
+                verdicts[c_ + odd[0]] = "unreachable" if not capable[kd] else "reached"
         want = "unreachable" if capable[kd] else "reached"
         wrong = sorted(c_ for c_, v in verdicts.items() if v not in (want, "unknown"))
         unknown = sorted(c_ for c_, v in verdicts.items() if v == "unknown")
         if wrong and capable[kd]:
             rep.violation("C07.R6", k, m.site(call), f"after 'key:' a {kd} scalar starting with {wrong!r} at column 0 is scanned as the value; PyYAML's scanner requires a possible simple key at the mapping's column (save_possible_simple_key), so it reads it as the next key: `a:` then `'b': c` gives [('a', ''), ('b', 'c')] in YAML")
         elif wrong:
-            rep.violation("C07.R6", k, m.site(call), f"after 'key:' a block scalar header {wrong!r} standing at column 0 does not reach {call.func.id}: it is taken for the next key (TokenizeError \"expected ':' after key\", or a wrong pair), where PyYAML - whose fetch_block_scalar can never be a simple key - reads it as the value ('a:' / '|' / ' x' gives [('a', 'x\\n')])")
+            rep.violation("C07.R6", k, m.site(call), f"after 'key:' a block scalar header {wrong!r} (header character and, where it matters, the character after it) standing at column 0 does not reach {call.func.id}: it is taken for the next key (TokenizeError \"expected ':' after key\", or a wrong pair), where PyYAML - whose fetch_block_scalar can never be a simple key - reads it as the value ('a:' / '|' / ' x' gives [('a', 'x\\n')])")
         elif unknown:
             rep.error("C07.R6", f"{m.site(call)} {call.func.id}: cannot decide whether it is reached at column 0 for {unknown!r} (a dispatch test the rule cannot evaluate)")
         else:
@@ -4054,4 +4077,7 @@ def mutants(corpus: Corpus):
     add("c07-folded-header-at-column-0-is-next-key", "C07.R6", "_tokenize", col0, lambda n: ast.get_source_segment(m.src, n).replace(tst(n), 'stream.column == 0 and ch != "|"', 1), "value continuing at column 0: _scan_block_scalar")
     add("c07-quoted-scalar-at-column-0-is-the-value", "C07.R6", "_tokenize", col0, lambda n: ast.get_source_segment(m.src, n).replace(tst(n), 'stream.column == 0 and ch not in ("|", ">", "\'", \'"\')', 1), "value continuing at column 0: _scan_flow_scalar")
     add("c07-anything-at-column-0-is-the-value", "C07.R6", "_tokenize", col0, lambda n: ast.get_source_segment(m.src, n).replace(tst(n), "False", 1), "value continuing at column 0: _scan_plain_scalar")
+    # --- round 16: the column-0 header guard narrowed by what follows the header character ---
+    add("c07-column-0-header-with-indicator-is-next-key", "C07.R6", "_tokenize", col0, lambda n: ast.get_source_segment(m.src, n).replace(tst(n), 'stream.column == 0 and not (ch in ("|", ">") and stream.peek(1) in _CHARS_END_SPACE_NEWLINE)', 1), "value continuing at column 0: _scan_block_scalar")
+    add("c07-column-0-header-before-digit-is-next-key", "C07.R6", "_tokenize", col0, lambda n: ast.get_source_segment(m.src, n).replace(tst(n), 'stream.column == 0 and (ch not in ("|", ">") or stream.peek(1) in "123456789")', 1), "value continuing at column 0: _scan_block_scalar")
     return out
